@@ -121,23 +121,44 @@ def tmp_worktree(repo: str | Path = ".", ref: str = "HEAD") -> Iterator[Path]:
     with TemporaryDirectory(prefix=f"{_WORKTREE_PREFIX}{repo_name}-{normref}-") as tmp_dir:
         location = os.path.join(tmp_dir, normref)  # noqa: PTH118
         tmp_branch = f"griffe-{normref}"  # Temporary branch name must not already exist.
-        process = subprocess.run(
-            ["git", "-C", repo, "worktree", "add", "-b", tmp_branch, location, ref],
+        # A branch of that name that already exists is not ours: leave it alone (the clean-up below deletes the branch).
+        listing = subprocess.run(
+            ["git", "-C", repo, "branch", "--list", tmp_branch],
             capture_output=True,
             check=False,
         )
-        if process.returncode:
-            raise RuntimeError(f"Could not create git worktree: {process.stderr.decode()}")
+        if listing.returncode or listing.stdout.strip():
+            raise RuntimeError(f"Could not create git worktree: a branch named '{tmp_branch}' already exists")
 
         try:
-            yield Path(location)
-        finally:
-            # Force the removal: analysing the checkout can leave untracked files in it (files written
-            # by inspected modules, byte-code caches), and `git worktree remove` refuses a dirty worktree.
-            subprocess.run(
-                ["git", "-C", repo, "worktree", "remove", "--force", location],
-                stdout=subprocess.DEVNULL,
+            # `git worktree add` can fail, or be interrupted, after it created the branch and registered
+            # the worktree (a failing hook or filter for example): it is part of what gets cleaned up.
+            process = subprocess.run(
+                ["git", "-C", repo, "worktree", "add", "-b", tmp_branch, location, ref],
+                capture_output=True,
                 check=False,
             )
-            subprocess.run(["git", "-C", repo, "worktree", "prune"], stdout=subprocess.DEVNULL, check=False)
-            subprocess.run(["git", "-C", repo, "branch", "-D", tmp_branch], stdout=subprocess.DEVNULL, check=False)
+            if process.returncode:
+                raise RuntimeError(f"Could not create git worktree: {process.stderr.decode()}")
+            yield Path(location)
+        finally:
+            # Every step runs even if the previous one is interrupted.
+            try:
+                # Force the removal: analysing the checkout can leave untracked files in it (files written
+                # by inspected modules, byte-code caches), and `git worktree remove` refuses a dirty worktree.
+                subprocess.run(
+                    ["git", "-C", repo, "worktree", "remove", "--force", location],
+                    stdout=subprocess.DEVNULL,
+                    stderr=subprocess.DEVNULL,
+                    check=False,
+                )
+            finally:
+                try:
+                    subprocess.run(["git", "-C", repo, "worktree", "prune"], stdout=subprocess.DEVNULL, check=False)
+                finally:
+                    subprocess.run(
+                        ["git", "-C", repo, "branch", "-D", tmp_branch],
+                        stdout=subprocess.DEVNULL,
+                        stderr=subprocess.DEVNULL,
+                        check=False,
+                    )
